@@ -23,6 +23,8 @@ def conservation(line):
                 return "command %s: total %d, success %d + error %d" % (n, t, s, e)
     if parts[2] != "upstream_conserved=1":
         return "upstream requests total differs from success + failure"
+    if len(parts) > 3 and parts[3] != "gauges=ok":
+        return "a gauge is below zero or differs from total - destroyed: " + parts[3]
     return None
 
 
